@@ -114,9 +114,21 @@ impl WN {
         }
     }
 
-    fn restart(&mut self) {
+    /// (height, tip block hash, tip filter header, remembered block hashes): what the property says only a validated
+    /// block may change
+    fn snapshot(&self) -> String {
+        let tracker = self.node.get_tracker();
+        let hs: Vec<String> = tracker.headers().iter().map(|h| h.0.block_hash().to_string()[..8].to_string()).collect();
+        format!("h={} tip={} fh={} window=[{}]", tracker.height(), &tracker.tip().0.block_hash().to_string()[..8],
+                &tracker.tip().1.to_string()[..8], hs.join(","))
+    }
+
+    /// returns the tracker snapshots before and after `restore_node`
+    fn restart(&mut self) -> (String, String) {
+        let before = self.snapshot();
         let (node_id, entry) = self.persister.get_nodes().unwrap().into_iter().next().unwrap();
         self.node = Node::restore_node(&node_id, entry, &self.seed, services(self.persister.clone(), &self.trusted)).unwrap();
+        (before, self.snapshot())
     }
 }
 
@@ -196,7 +208,13 @@ impl Group for C13Node {
                     co.out.push("ok".into());
                 }
                 ["nrestart"] => {
-                    w.as_mut().expect("ninit first").restart();
+                    let (before, after) = w.as_mut().expect("ninit first").restart();
+                    // round 9: a restart is not a block — tip, height and the remembered headers come back as persisted
+                    // (above height 0; a tracker at height 0 is fast-forwarded to the compiled-in checkpoint by design)
+                    if before != after {
+                        co.violations.push(Violation { kind: "restart-moved-tracker".into(),
+                            desc: format!("restore_node changed the chain tracker without a validated block: before [{}], after [{}]", before, after), at: i });
+                    }
                     restarted = true;
                     co.tags.insert("restart".into());
                     co.out.push("ok".into());
